@@ -29,15 +29,26 @@ pub fn point(name: &'static str) {
     }
 }
 
+thread_local! {
+    static CURRENT_TASK: std::cell::Cell<Option<u64>> = const { std::cell::Cell::new(None) };
+}
+
+/// Spawn sequence number of the snapshot task running on the calling thread, if any.
+pub fn current_task() -> Option<u64> {
+    CURRENT_TASK.with(|c| c.get())
+}
+
 /// Wrap a task body so that the counters see its start and its end.
 pub fn track<S, P, T>(f: impl FnOnce(S, P) -> T) -> impl FnOnce(S, P) -> T {
-    SPAWNED.fetch_add(1, Ordering::SeqCst);
+    let seq = SPAWNED.fetch_add(1, Ordering::SeqCst);
     move |s, p| {
+        CURRENT_TASK.with(|c| c.set(Some(seq)));
         struct Done;
         impl Drop for Done {
             fn drop(&mut self) {
                 FINISHED.fetch_add(1, Ordering::SeqCst);
                 point("task:end");
+                CURRENT_TASK.with(|c| c.set(None));
             }
         }
         point("task:start");
